@@ -504,6 +504,14 @@ func c10(r *mon.Run) {
 		addName(strings.ToUpper(f))
 		addName(strings.ReplaceAll(f, "_", ""))
 		addName("_" + f)
+		// long unknown names (whatever compares an unknown name with the known ones works on names of any length)
+		for _, ext := range []string{"_descending", "_or_null", "_case_insensitive_with_a_very_long_suffix_0123456789", strings.Repeat("_x", 8), strings.Repeat("y", 15), strings.Repeat("z", 16), strings.Repeat("q", 17), strings.Repeat("w", 31), strings.Repeat("v", 64), strings.Repeat("u", 300)} {
+			addName(f + ext)
+			addName(f[:1] + ext)
+		}
+	}
+	for _, n := range []string{strings.Repeat("a", 15), strings.Repeat("a", 16), strings.Repeat("a", 17), strings.Repeat("m", 32), strings.Repeat("s", 33), strings.Repeat("t", 255), strings.Repeat("k", 256), strings.Repeat("n", 1000), "x", "xx", strings.Repeat("x", 16), strings.Repeat("_", 16), "A", strings.Repeat("Z", 20)} {
+		addName(n)
 	}
 	nearArgs := [][]*gen.Expr{{gen.Field("n")}, {gen.Field("s")}, {gen.Field("a")}, {gen.Field("o")}, {gen.Field("a"), gen.ExpRef(gen.Current())}, {gen.ExpRef(gen.Current()), gen.Field("a")}, {gen.Field("s"), gen.Field("s")}, {gen.Field("a"), gen.Field("n")}, {}, {gen.Field("o"), gen.Field("o")}}
 	nearw := mon.Workload{Name: "near-miss-function-names", N: len(nearNames) * len(nearArgs),
@@ -705,5 +713,30 @@ func c10(r *mon.Run) {
 				t.NontrivialDistinct(1)
 			}
 		}}
-	r.Exec(exh, by, many, rnd, sizedWorkload(r, "sized-arrays-ill-typed", true), nj, erw, oddw, inctx, latew, nearw, afterw, wprodw)
+	// an expression reference anywhere BELOW an argument (inside a multi-select, a hash, a parenthesis, an operand, an inner call that
+	// takes values): it is no value there either - an error, at compile time or at evaluation time, for every function and position
+	hidden := []string{"[&a]", "[a, &a]", "{x: &a}", "`1` || &a", "a && &a", "!&a", "(&a)", "a == &a", "[&a][0]", "to_array(&a)", "not_null(a, &a)", "[[&a]]", "{x: [&a]}", "a[?&b]", "a[*].[&b]", "a.{k: &b}", "type(&a)", "[&a, &a]", "&&a", "& &a", "(a, &a)", "a || (&a)", "[?&a]", "*.[&a]"}
+	hnames := ref.FunctionNames()
+	hidw := mon.Workload{Name: "expression-references-hidden-below-an-argument", N: len(hnames) * len(hidden) * 3, Batch: 500,
+		Do: func(i int, t *mon.Tally) {
+			fnm, h, pos := hnames[i/3/len(hidden)], hidden[i/3%len(hidden)], i%3
+			expr := fnm + "(" + h + ")"
+			switch pos {
+			case 1:
+				expr = fnm + "(a, " + h + ")"
+			case 2:
+				expr = fnm + "(" + h + ", a)"
+			}
+			doc := docs.J(`{"a":[{"b":1,"a":2},{"b":2,"a":1}],"b":"s"}`)
+			for q, o := range []mon.Observed{apiSearch(expr, doc), apiCompiledSearch(expr, mon.DeepCopy(doc))} {
+				t.Eval()
+				if o.Panicked || o.Err == nil {
+					r.Violate(&mon.Violation{Workload: "expression-references-hidden-below-an-argument", Index: i, API: []string{"Search", "Compile+Search"}[q], Expr: expr, Doc: doc,
+						Expected: "an error: an expression reference is allowed only as a whole argument of a function that declares an expression parameter; anywhere below an argument it is no value (and no sentence of the grammar)", Observed: o.String(), Class: "expression reference accepted below an argument"})
+					return
+				}
+			}
+			t.NontrivialDistinct(1)
+		}}
+	r.Exec(exh, by, many, rnd, sizedWorkload(r, "sized-arrays-ill-typed", true), nj, erw, oddw, inctx, latew, nearw, afterw, wprodw, hidw)
 }
